@@ -954,7 +954,7 @@ class Noise(EnvironmentFilter):
                 if self._action_noise and callable(new.get('feedbacks')):
                     new['feedbacks'] = DiscreteReward(noisy_actions, list(map(new['feedbacks'],actions)))
 
-            if 'rewards' in new:
+            if 'rewards' in new and not (is_callable and not new.get('actions')):
                 rewards = new['rewards']
                 if is_callable: rewards = map(rewards,actions)
                 noisy_rewards = [ self._noises(r, rng, self._reward_noise) for r in rewards ]
